@@ -580,6 +580,29 @@ func genMem(r *wire.Rng, clock *int) Op {
 	return Op{K: "msvc", N: memHost, Ns: proxyNs, T: *clock, Vip: "10.10.1.1", Ports: wire.Pick(r, [][]int{{80}, {80, 9090}, {8080}}), Eps: genEps(r, 9)}
 }
 
+// normSE keeps the grammar clear of a nondeterminism that belongs to another property (C17 / F9):
+// the services of ONE multi-host ServiceEntry tie in SortServicesByCreationTime (same time, name,
+// namespace) and their relative order is random per push context; whenever the two hosts compete
+// for one thing (the VIP as a virtual-host domain, a 0.0.0.0 TCP listener) the winner differs
+// between two clients of the same server. A multi-host entry therefore has no VIP and no plain TCP port.
+func normSE(o Op) Op {
+	if o.K != "se" || len(o.Hosts) < 2 {
+		return o
+	}
+	o.Vip = ""
+	var ports []int
+	for _, p := range o.Ports {
+		if portTable[p].Proto != "TCP" {
+			ports = append(ports, p)
+		}
+	}
+	if len(ports) == 0 {
+		ports = []int{80}
+	}
+	o.Ports = ports
+	return o
+}
+
 func sameOp(a, b Op) bool { return fmt.Sprintf("%+v", a) == fmt.Sprintf("%+v", b) }
 
 // genOp draws one change against the current world: a real change (never a no-op).
@@ -666,6 +689,7 @@ func genOp(r *wire.Rng, w *world, clock *int) Op {
 				o = genMem(r, clock)
 			}
 		}
+		o = normSE(o)
 		// reject no-ops
 		switch o.K {
 		case "se", "dr", "vs", "sc":
@@ -690,7 +714,7 @@ func genBase(r *wire.Rng, clock *int) []Op {
 	var ops []Op
 	for _, n := range seNames {
 		if r.Chance(3, 5) {
-			ops = append(ops, genSE(r, n, clock))
+			ops = append(ops, normSE(genSE(r, n, clock)))
 		}
 	}
 	if r.Chance(1, 2) {
